@@ -120,6 +120,24 @@ class VLoop(asyncio.SelectorEventLoop):
     def time(self) -> float:
         return CLOCK.us / 1e6
 
+    # -- signals: the handlers a program registers are kept; deliver_signal() runs one as the loop would on a real signal --
+    def add_signal_handler(self, sig, callback, *args):  # type: ignore[override]
+        self.sig_handlers = getattr(self, "sig_handlers", {})
+        self.sig_handlers[sig] = (callback, args)
+
+    def remove_signal_handler(self, sig):  # type: ignore[override]
+        return getattr(self, "sig_handlers", {}).pop(sig, None) is not None
+
+    def deliver_signal(self, sig=None) -> bool:
+        hs = getattr(self, "sig_handlers", {})
+        if sig is None and hs:
+            sig = next(iter(hs))
+        if sig not in hs:
+            return False
+        cb, args = hs[sig]
+        self.call_soon(cb, *args)
+        return True
+
     # -- listening sockets are replaced by a recording fake (C20): the protocol factory is kept so
     #    that connections can be hand-fed, open/close of the "port" is observable -----------------
     async def create_server(self, protocol_factory, host=None, port=None, **kw):  # type: ignore[override]
@@ -162,10 +180,16 @@ class VLoop(asyncio.SelectorEventLoop):
 
 
 class FakeServer:
+    """listening socket of loop.create_server: the protocol factory is kept, connections are hand-fed (connect()).
+    wait_closed() has the meaning it has since Python 3.12: it returns once the server is closed AND every connection it
+    accepted is gone."""
+
     def __init__(self, factory, host, port) -> None:
         self.factory, self.host, self.port = factory, host, port
         self.serving = True        # loop.create_server(start_serving=True) listens at once
         self.closed = False
+        self.connections: set = set()
+        self._waiters: list = []
 
     def is_serving(self) -> bool:
         return self.serving
@@ -174,25 +198,67 @@ class FakeServer:
         if not self.closed:
             self.serving = True
 
+    def connect(self):
+        """a client connects: (protocol, transport)"""
+        p = self.factory()
+        t = FakeTransport(self, p)
+        self.connections.add(t)
+        p.connection_made(t)
+        return p, t
+
+    def _detach(self, t) -> None:
+        self.connections.discard(t)
+        if self.closed and not self.connections:
+            for w in self._waiters:
+                if not w.done():
+                    w.set_result(None)
+            self._waiters.clear()
+
     def close(self) -> None:
         self.serving = False
         self.closed = True
+        self._detach(None)
 
     async def wait_closed(self) -> None:
         await asyncio.sleep(0)
+        if not self.closed or not self.connections:
+            return
+        w = asyncio.get_event_loop().create_future()
+        self._waiters.append(w)
+        await w
 
 
 class FakeTransport:
-    def __init__(self) -> None:
+    def __init__(self, server=None, protocol=None) -> None:
         self.written = b""
         self.closed = False
+        self.server, self.protocol = server, protocol
 
     def write(self, data: bytes) -> None:
         if not self.closed:
             self.written += data
 
     def close(self) -> None:
+        if self.closed:
+            return
         self.closed = True
+        if self.server is not None:
+            # like a socket transport: connection_lost is called soon after, then the server forgets the connection
+            def lost():
+                try:
+                    self.protocol.connection_lost(None)
+                finally:
+                    self.server._detach(self)
+            try:
+                asyncio.get_event_loop().call_soon(lost)
+            except RuntimeError:
+                lost()
+
+    def abort(self) -> None:
+        self.close()
+
+    def is_closing(self) -> bool:
+        return self.closed
 
     def is_closing(self) -> bool:
         return self.closed
